@@ -39,8 +39,11 @@ FILL = [
 FIXED_SHAPE = {"validate", "recordcomplement", "recorddiff0", "recorddiff1", "setheader", "pushheader"}
 
 
-def mk(shape, rows):
-    return [list(shape)] + [[d[f] for f in shape] for d in rows]
+def mk(shape, rows, cells=None):
+    def val(d, f):
+        kind = (cells or {}).get(f)
+        return [d[f], d[f]] if kind == "pair" else {"p": d[f]} if kind == "dict" else d[f]
+    return [list(shape)] + [[val(d, f) for f in shape] for d in rows]
 
 
 def _rn(t, m):
@@ -159,7 +162,7 @@ def check(case, ctx):
     e = catalog.get(case["entry"])
     shape = tuple(case["shape"])
     mask = set(case["empty"])
-    full = [mk(shape, FILL[(case["filler"] + i) % len(FILL)]) for i in range(e.n)]
+    full = [mk(shape, FILL[(case["filler"] + i) % len(FILL)], e.cells) for i in range(e.n)]
     S = [mk(shape, []) if i in mask else full[i] for i in range(e.n)]
     snap = codec.snapshot(S)
     ctx.nontrivial(True)
